@@ -55,6 +55,10 @@ CFG = dict(
          "pushed over one edge (port +-1, address +-1, other protocol); every probe is "
          "executed on the real instruction stream by the Coq eBPF interpreter (following tail calls) and compared with the IR model and "
          "with PolicyRef.  non-trivial = compiled, >=2 rules and >=1 match criterion; distinct by (options, rules, sets);  "
+         "65% of the cases hold a nested CIDR family in the pool (several entries sharing one base address with different prefix lengths, "
+         "plus a nested CIDR with another base), and a cidr-stress stream (20% of the plain cases) has rules whose src/dst, positive/negated "
+         "CIDR lists are arrangements of that family (narrow-then-broad, broad-then-narrow, duplicates); probes aimed at a CIDR list take "
+         "the first / last address of an entry or the address just outside it (inside the broader, outside the narrower entry); "
          "a key-stress stream (20% of the plain cases) has rules doing SEVERAL IP-set-type lookups with the same on-stack key on one leg "
          "(selector set positive/negated or IP+port set, then 0-6 numeric port ranges, then 1-2 named-port sets, positive or negated; src, dst "
          "or both legs), named-port members nested inside the selector sets, and the same rules and probes compiled with three jump limits "
